@@ -142,3 +142,136 @@ def gibbs_probabilities(target_index: int, allele_index: int, sample_genotypes: 
                             lemma_llka_compact(RDT, RCT, reads, read_counts, MASK, haplotypes, g3, P, NN, NR)
                     else:
                         instantiate(DCOH3(old(llk_cache), sample_read_dists, sample_read_counts, haplotypes, sample_ploidy, NS, NN, NR, U), g3)
+
+
+# ---- the cache invariant seen from one individual (its reads with zero counts masked out) and back
+
+
+@spec_inline
+def COMPACT(RDs: A[float, 3], RCs: A[int, 1], Rm: A[float, 3], Cm: A[int, 1], mask: A[bool, 1], n: int, m: int) -> bool:
+    """(Rm, Cm) are the rows of (RDs, RCs) with a positive count, in order (boolean-mask selection)"""
+    return m == BCOUNT(mask, 0, n) and forall(0, n, lambda p: mask[p] == (RCs[p] > 0)) and forall(0, n, lambda p: implies(mask[p], Cm[BCOUNT(mask, 0, p)] == RCs[p] and forall(lambda c, a: CELL(Rm, BCOUNT(mask, 0, p), c, a) == CELL(RDs, p, c, a)))) and forall(0, m, lambda r: Cm[r] > 0)
+
+
+@lemma(shared=True)
+def lemma_masked_llk(RDs: A[float, 3], RCs: A[int, 1], Rm: A[float, 3], Cm: A[int, 1], mask: A[bool, 1], H: A[int, 2], g: A[int, 1], P: int, N: int, n: int, m: int):
+    """the (doubly) masked likelihood of the compacted reads is the masked likelihood of the individual's reads"""
+    requires(COMPACT(RDs, RCs, Rm, Cm, mask, n, m), n >= 0, P >= 0, N >= 0)
+    ensures(same(LLKAZ(Rm, Cm, H, g, P, N, m), LLKAZ(RDs, RCs, H, g, P, N, n)))
+    lemma_llkaz_pos(Rm, Cm, H, g, P, N, m)
+    lemma_llka_compact(RDs, RCs, Rm, Cm, mask, H, g, P, N, n)
+
+
+@lemma(shared=True)
+def lemma_dcoh3_to_2(cache: FDict2, RD: A[float, 4], RC: A[int, 2], H: A[int, 2], PL: A[int, 1], NS: int, N: int, n: int, U: int, s: int, Rm: A[float, 3], Cm: A[int, 1], mask: A[bool, 1], m: int):
+    requires(DCOH3(cache, RD, RC, H, PL, NS, N, n, U), 0 <= s, s < NS, COMPACT(RD[s], RC[s], Rm, Cm, mask, n, m), n >= 0, N >= 0, PL[s] >= 0)
+    ensures(DCOH2(cache, s, Rm, Cm, H, PL[s], N, m, U))
+    with forall_intro_arr1(g2, implies(VALIDA(g2, PL[s], U) and SORTEDA(g2, PL[s]) and ((s, IDX(g2, PL[s])) in cache), same(cache[s, IDX(g2, PL[s])], LLKAZ(Rm, Cm, H, g2, PL[s], N, m))), pattern=IDX(g2, PL[s])):
+        instantiate(DCOH3(cache, RD, RC, H, PL, NS, N, n, U), g2)
+        lemma_masked_llk(RD[s], RC[s], Rm, Cm, mask, H, g2, PL[s], N, n, m)
+
+
+@lemma(shared=True)
+def lemma_dcoh2_to_3(cache: FDict2, cache0: FDict2, RD: A[float, 4], RC: A[int, 2], H: A[int, 2], PL: A[int, 1], NS: int, N: int, n: int, U: int, s: int, Rm: A[float, 3], Cm: A[int, 1], mask: A[bool, 1], m: int):
+    """one individual's entries were updated coherently, the others are untouched: the whole cache is coherent"""
+    requires(DCOH3(cache0, RD, RC, H, PL, NS, N, n, U), DCOH2(cache, s, Rm, Cm, H, PL[s], N, m, U), 0 <= s, s < NS, COMPACT(RD[s], RC[s], Rm, Cm, mask, n, m), n >= 0, N >= 0, PL[s] >= 0)
+    requires(forall(lambda s2, k2: implies(s2 != s, ((s2, k2) in cache) == ((s2, k2) in cache0) and same(cache[s2, k2], cache0[s2, k2]))))
+    ensures(DCOH3(cache, RD, RC, H, PL, NS, N, n, U))
+    with forall_intro_arr1(g3, forall(0, NS, lambda t: implies(VALIDA(g3, PL[t], U) and SORTEDA(g3, PL[t]) and ((t, IDX(g3, PL[t])) in cache), same(cache[t, IDX(g3, PL[t])], LLKAZ(RD[t], RC[t], H, g3, PL[t], N, n))))):
+        with forall_intro(s3, 0, NS, implies(VALIDA(g3, PL[s3], U) and SORTEDA(g3, PL[s3]) and ((s3, IDX(g3, PL[s3])) in cache), same(cache[s3, IDX(g3, PL[s3])], LLKAZ(RD[s3], RC[s3], H, g3, PL[s3], N, n)))):
+            if s3 == s:
+                if VALIDA(g3, PL[s], U) and SORTEDA(g3, PL[s]):
+                    instantiate(DCOH2(cache, s, Rm, Cm, H, PL[s], N, m, U), g3)
+                    lemma_masked_llk(RD[s], RC[s], Rm, Cm, mask, H, g3, PL[s], N, n, m)
+            else:
+                instantiate(DCOH3(cache0, RD, RC, H, PL, NS, N, n, U), g3)
+
+
+@spec_abstract
+def GMB(blanket: A[int, 1], SG: A[int, 2], ploidy: A[int, 1], parents: A[int, 2], tau: A[int, 2], lam: A[float, 2], err: A[float, 2], lf: A[xfloat, 1]) -> xfloat:
+    """joint log probability of the pedigree items in a Markov blanket (abstract: pedigree/prior.py is not under contract)"""
+
+
+@contract("mchap.pedigree.prior.generic_markov_blanket_log_probability", trusted=True, props=["C18"])
+def generic_markov_blanket_log_probability(markov_blanket: A[iN, 1], sample_genotypes: A[iN, 2], sample_ploidy: A[iN, 1], sample_parents: A[iN, 2], gamete_tau: A[iN, 2], gamete_lambda: A[f8, 2], gamete_error: A[f8, 2], log_frequencies: A[f8, 1], dosage: A[iN, 1], dosage_p: A[iN, 1], dosage_q: A[iN, 1], gamete_p: A[iN, 1], gamete_q: A[iN, 1], constraint_p: A[iN, 1], constraint_q: A[iN, 1], dosage_log_frequencies: A[f8, 1]) -> float:
+    modifies(dosage, dosage_p, dosage_q, gamete_p, gamete_q, constraint_p, constraint_q, dosage_log_frequencies)
+    ensures(not isnan(result))
+    ensures(result == GMB(markov_blanket, sample_genotypes, sample_ploidy, sample_parents, gamete_tau, gamete_lambda, gamete_error, log_frequencies))
+
+
+@spec_inline
+def SAMPLEOK(SG: A[int, 2], RD: A[xfloat, 4], RC: A[int, 2], H: A[int, 2], s: int, P: int, U: int, N: int, NA: int, NR: int) -> bool:
+    """individual s: a valid genotype in its first P copies, well-formed reads, non-negative counts, representable genotype index"""
+    return 1 <= P and P <= 127 and forall(0, P, lambda i: 0 <= SG[s, i] and SG[s, i] < U) and READSOK(RD[s], NR, N, NA) and forall(0, NR, lambda r: RC[s, r] >= 0) and cwr(U, P) < 2 ** 53
+
+
+@contract("mchap.pedigree.mcmc.pair_allele_swap_step", machine_ints=True, props=["C18", "C09"], variants=[{"llk_cache": "some"}])
+def pair_allele_swap_step(p: int, q: int, markov_blanket: A[iN, 1], sample_genotypes: A[iN, 2], sample_ploidy: A[iN, 1], sample_parents: A[iN, 2], gamete_tau: A[iN, 2], gamete_lambda: A[f8, 2], gamete_error: A[f8, 2], sample_read_dists: A[f8, 4], sample_read_counts: A[i8, 2], haplotypes: A[i1, 2], log_frequencies: A[f8, 1], llk_cache: Opt[FDict2], dosage: A[iN, 1], dosage_p: A[iN, 1], dosage_q: A[iN, 1], gamete_p: A[iN, 1], gamete_q: A[iN, 1], constraint_p: A[iN, 1], constraint_q: A[iN, 1], dosage_log_frequencies: A[f8, 1]) -> Tup[float, bool]:
+    requires(NS >= 1, 0 <= p, p < NS, 0 <= q, q < NS, p != q, sample_genotypes.shape[0] == NS, sample_read_dists.shape[0] == NS, sample_read_counts.shape[0] == NS, sample_read_counts.shape[1] == NR, sample_read_dists.shape[2] == NN)
+    requires(1 <= U, U <= 127, sample_ploidy[p] <= sample_genotypes.shape[1], sample_ploidy[q] <= sample_genotypes.shape[1])
+    requires(forall(0, haplotypes.shape[0], lambda h: forall(0, NN, lambda j: 0 <= haplotypes[h, j] and haplotypes[h, j] < sample_read_dists.shape[3])))
+    requires(SAMPLEOK(sample_genotypes, sample_read_dists, sample_read_counts, haplotypes, p, sample_ploidy[p], U, NN, sample_read_dists.shape[3], NR))
+    requires(SAMPLEOK(sample_genotypes, sample_read_dists, sample_read_counts, haplotypes, q, sample_ploidy[q], U, NN, sample_read_dists.shape[3], NR))
+    requires(implies(llk_cache is not None, DCOH3(llk_cache, sample_read_dists, sample_read_counts, haplotypes, sample_ploidy, NS, NN, NR, U)))
+    requires(sample_genotypes.shape[1] <= 2 ** 20)
+    # the current state is possible
+    requires(not isninf(LLKAZ(sample_read_dists[p], sample_read_counts[p], haplotypes, arr1(lambda t: sample_genotypes[p, t]), sample_ploidy[p], NN, NR)))
+    requires(not isninf(LLKAZ(sample_read_dists[q], sample_read_counts[q], haplotypes, arr1(lambda t: sample_genotypes[q, t]), sample_ploidy[q], NN, NR)))
+    requires(not isninf(GMB(markov_blanket, sample_genotypes, sample_ploidy, sample_parents, gamete_tau, gamete_lambda, gamete_error, log_frequencies)))
+    modifies(sample_genotypes, llk_cache, dosage, dosage_p, dosage_q, gamete_p, gamete_q, constraint_p, constraint_q, dosage_log_frequencies)
+    # C09: every likelihood entered into the shared cache belongs to the individual whose reads produced it
+    ensures(implies(llk_cache is not None, DCOH3(llk_cache, sample_read_dists, sample_read_counts, haplotypes, sample_ploidy, NS, NN, NR, U)))
+    # the two alleles are exchanged, or (rejection) the genotypes are exactly as before
+    ensures(implies(not result[1], forall(0, NS, lambda x: forall(0, sample_genotypes.shape[1], lambda y: sample_genotypes[x, y] == old(sample_genotypes)[x, y]))))
+    with defs():
+        NS = len(sample_ploidy)
+        NR = sample_read_dists.shape[1]
+        NN = haplotypes.shape[1]
+        U = len(haplotypes)
+    with before_call("log_likelihood_alleles_cached", 0):
+        S0 = log_likelihood_alleles_cached_arg_genotype_alleles
+        CB0 = val(llk_cache)
+        with forall_intro(t, 0, sample_ploidy[p], 0 <= S0[t] and S0[t] < U):
+            assert_(S0[t] == sample_genotypes[p, sort0(t)])
+        with forall_intro(r, 0, len(read_counts_p), read_counts_p[r] > 0):
+            assert_(read_counts_p[r] == sample_read_counts[p, msel_src1(r)])
+        lemma_dcoh3_to_2(llk_cache, sample_read_dists, sample_read_counts, haplotypes, sample_ploidy, NS, NN, NR, U, p, read_dists_p, read_counts_p, msel_mask0, len(read_counts_p))
+    with after_call("log_likelihood_alleles_cached", 0):
+        lemma_masked_llk(sample_read_dists[p], sample_read_counts[p], read_dists_p, read_counts_p, msel_mask0, haplotypes, S0, sample_ploidy[p], NN, NR, len(read_counts_p))
+        lemma_llkaz_perm(sample_read_dists[p], sample_read_counts[p], haplotypes, arr1(lambda t: old(sample_genotypes)[p, t]), S0, arr1(lambda t: sort0(t)), arr1(lambda t: sort0_inv(t)), sample_ploidy[p], NN, NR)
+        lemma_dcoh2_to_3(llk_cache, CB0, sample_read_dists, sample_read_counts, haplotypes, sample_ploidy, NS, NN, NR, U, p, read_dists_p, read_counts_p, msel_mask0, len(read_counts_p))
+    with before_call("log_likelihood_alleles_cached", 1):
+        S1 = log_likelihood_alleles_cached_arg_genotype_alleles
+        CB1 = val(llk_cache)
+        with forall_intro(t, 0, sample_ploidy[q], 0 <= S1[t] and S1[t] < U):
+            assert_(S1[t] == sample_genotypes[q, sort1(t)])
+        with forall_intro(r, 0, len(read_counts_q), read_counts_q[r] > 0):
+            assert_(read_counts_q[r] == sample_read_counts[q, msel_src3(r)])
+        lemma_dcoh3_to_2(llk_cache, sample_read_dists, sample_read_counts, haplotypes, sample_ploidy, NS, NN, NR, U, q, read_dists_q, read_counts_q, msel_mask2, len(read_counts_q))
+    with after_call("log_likelihood_alleles_cached", 1):
+        lemma_masked_llk(sample_read_dists[q], sample_read_counts[q], read_dists_q, read_counts_q, msel_mask2, haplotypes, S1, sample_ploidy[q], NN, NR, len(read_counts_q))
+        lemma_llkaz_perm(sample_read_dists[q], sample_read_counts[q], haplotypes, arr1(lambda t: old(sample_genotypes)[q, t]), S1, arr1(lambda t: sort1(t)), arr1(lambda t: sort1_inv(t)), sample_ploidy[q], NN, NR)
+        lemma_dcoh2_to_3(llk_cache, CB1, sample_read_dists, sample_read_counts, haplotypes, sample_ploidy, NS, NN, NR, U, q, read_dists_q, read_counts_q, msel_mask2, len(read_counts_q))
+    with before_call("log_likelihood_alleles_cached", 2):
+        S2 = log_likelihood_alleles_cached_arg_genotype_alleles
+        CB2 = val(llk_cache)
+        with forall_intro(t, 0, sample_ploidy[p], 0 <= S2[t] and S2[t] < U):
+            assert_(S2[t] == sample_genotypes[p, sort2(t)])
+        with forall_intro(r, 0, len(read_counts_p), read_counts_p[r] > 0):
+            assert_(read_counts_p[r] == sample_read_counts[p, msel_src1(r)])
+        lemma_dcoh3_to_2(llk_cache, sample_read_dists, sample_read_counts, haplotypes, sample_ploidy, NS, NN, NR, U, p, read_dists_p, read_counts_p, msel_mask0, len(read_counts_p))
+    with after_call("log_likelihood_alleles_cached", 2):
+        lemma_dcoh2_to_3(llk_cache, CB2, sample_read_dists, sample_read_counts, haplotypes, sample_ploidy, NS, NN, NR, U, p, read_dists_p, read_counts_p, msel_mask0, len(read_counts_p))
+    with before_call("log_likelihood_alleles_cached", 3):
+        S3 = log_likelihood_alleles_cached_arg_genotype_alleles
+        CB3 = val(llk_cache)
+        with forall_intro(t, 0, sample_ploidy[q], 0 <= S3[t] and S3[t] < U):
+            assert_(S3[t] == sample_genotypes[q, sort3(t)])
+        with forall_intro(r, 0, len(read_counts_q), read_counts_q[r] > 0):
+            assert_(read_counts_q[r] == sample_read_counts[q, msel_src3(r)])
+        lemma_dcoh3_to_2(llk_cache, sample_read_dists, sample_read_counts, haplotypes, sample_ploidy, NS, NN, NR, U, q, read_dists_q, read_counts_q, msel_mask2, len(read_counts_q))
+    with after_call("log_likelihood_alleles_cached", 3):
+        lemma_dcoh2_to_3(llk_cache, CB3, sample_read_dists, sample_read_counts, haplotypes, sample_ploidy, NS, NN, NR, U, q, read_dists_q, read_counts_q, msel_mask2, len(read_counts_q))
+    with before_stmt("proposal = count_allele(sample_genotypes[p], allele_p) * count_allele(sample_genotypes[q], allele_q)"):
+        lemma_cnt_pos(sample_genotypes[p], sample_genotypes.shape[1], index_p)
+        lemma_cnt_pos(sample_genotypes[q], sample_genotypes.shape[1], index_q)
